@@ -20,7 +20,7 @@ META = dict(
          "the explored environment.",
 )
 PIPES = ["probe", "pw_multislice", "stem", "prism", "interpolate", "diffraction", "gaussian", "lazy_multislice",
-         "eager_fp_multislice", "eager_fp_stem", "propagator_reuse", "prism_fp", "fftn_axes", "interpolate3d"]
+         "eager_fp_multislice", "eager_fp_stem", "propagator_reuse", "prism_fp", "fftn_axes", "interpolate3d", "source_reused"]
 
 
 def configs(quick):
@@ -80,6 +80,16 @@ def pipeline(name):
         r = rng("c38", name)
         x = (r.normal(size=(2, 4, 5, 6)) + 1j * r.normal(size=(2, 4, 5, 6))).astype(np.complex64)
         return np.concatenate([np.ravel(fft_interpolate(x.copy(), s_)) for s_ in ((6, 5, 6), (4, 9, 7), (3, 4, 4))])
+    if name == "source_reused":  # a Waves object in the configured precision is downsampled / detected, then used AGAIN: same numbers on every backend
+        from abtem.core.utils import get_dtype
+
+        r = rng("c38", name)
+        w = abtem.Waves((r.normal(size=(2, 12, 10)) + 1j * r.normal(size=(2, 12, 10))).astype(get_dtype(complex=True)), energy=1e5, sampling=0.2,
+                        ensemble_axes_metadata=[abtem.core.axes.OrdinalAxis(values=(0, 1))])
+        outs = [np.ravel(np.asarray(w.downsample(max_angle="cutoff").array)), np.ravel(np.asarray(w.intensity().array)),
+                np.ravel(np.asarray(abtem.WavesDetector().detect(w).array)), np.ravel(np.asarray(w.downsample(gpts=(8, 6)).array)),
+                np.ravel(np.asarray(w.diffraction_patterns(max_angle="valid").array)), np.ravel(np.asarray(w.array))]
+        return np.concatenate([o.astype(np.complex128) for o in outs])
     if name == "propagator_reuse":  # one propagator object, four different same-shaped wave arrays in a row, in place and not
         from abtem.multislice import FresnelPropagator
 
